@@ -48,13 +48,14 @@
 import GherkinVerif.Props.C16Doc3
 import GherkinVerif.Lemmas.LayoutDoc4
 import GherkinVerif.Lemmas.LayoutDoc4IndentSim
+import GherkinVerif.KDecide
 namespace GV
 open Lemmas Layout3 Layout4
 
 /-! ## facts about the regenerated table -/
 
-theorem C16_fact_prods : Spec.prodsOk Gen.parserTable C16_depths = true := by decide +kernel
-theorem C16_fact_lookaheads_comment : Spec.lookaheadsCommentOk Gen.parserTable = true := by decide +kernel
+theorem C16_fact_prods : Spec.prodsOk Gen.parserTable C16_depths = true := by kdecide
+theorem C16_fact_lookaheads_comment : Spec.lookaheadsCommentOk Gen.parserTable = true := by kdecide
 
 theorem tableOkC_of_facts {T : Table} {ds : List (Nat × Nat)} (hL : Spec.lookaheadsCommentOk T = true)
     (hd : Spec.depthsOk T ds = true) (hp : Spec.prodsOk T ds = true) : TableOkC T ds := by
@@ -177,7 +178,7 @@ def C16_comDoc' : Str :=
 example : (MState.init Gen.dialects (lit "en")).map (fun μ =>
       (List.range 9).map fun k =>
         Spec.commentLineOkB Gen.dialects Gen.parserTable false μ 0 C16_comDoc k (lit "   # new \r\n")) =
-    some [true, true, false, true, false, true, true, true, true] := by decide +kernel
+    some [true, true, false, true, false, true, true, true, true] := by kdecide
 
 /-- the conclusion at position 5 is not trivial: the new comment has column 1 and keeps its blanks
     (not its line ending), the old comment and everything behind moves down -/
@@ -186,13 +187,13 @@ example : (MState.init Gen.dialects (lit "en")).map (fun μ =>
        C16_commentsOf (parseWith Gen.dialects Gen.parserTable false μ 0 C16_comDoc').1)) =
     some ([(⟨1, some 1⟩, lit "# c1"), (⟨6, some 1⟩, lit "  # c2")],
           [(⟨1, some 1⟩, lit "# c1"), (⟨6, some 1⟩, lit "   # new "), (⟨7, some 1⟩, lit "  # c2")]) := by
-  decide +kernel
+  kdecide
 
 example : (MState.init Gen.dialects (lit "en")).map (fun μ =>
       (C16_someLocs (parseWith Gen.dialects Gen.parserTable false μ 0 C16_comDoc).1,
        C16_someLocs (parseWith Gen.dialects Gen.parserTable false μ 0 C16_comDoc').1)) =
     some ([⟨4, some 1⟩, ⟨5, some 3⟩, ⟨7, some 3⟩, ⟨8, some 3⟩],
-          [⟨4, some 1⟩, ⟨5, some 3⟩, ⟨8, some 3⟩, ⟨9, some 3⟩]) := by decide +kernel
+          [⟨4, some 1⟩, ⟨5, some 3⟩, ⟨8, some 3⟩, ⟨9, some 3⟩]) := by kdecide
 
 /-- a rejected document (tag with whitespace, unexpected line): a comment inserted after line 4; the
     hypotheses hold in collecting mode; in stop mode the run has aborted at line 2 and nothing is
@@ -204,7 +205,7 @@ example : (MState.init Gen.dialects (lit "en")).map (fun μ =>
        Spec.commentLineOkB Gen.dialects Gen.parserTable true μ 0 b 4 (lit "#n\n"),
        C16_someLocs (parseWith Gen.dialects Gen.parserTable false μ 0 b).1,
        C16_someLocs (parseWith Gen.dialects Gen.parserTable false μ 0 b').1)) =
-    some (true, true, [⟨2, some 5⟩, ⟨5, some 1⟩], [⟨2, some 5⟩, ⟨6, some 1⟩]) := by decide +kernel
+    some (true, true, [⟨2, some 5⟩, ⟨5, some 1⟩], [⟨2, some 5⟩, ⟨6, some 1⟩]) := by kdecide
 
 /-- COUNTEREXAMPLES (the hypotheses are needed): inside a doc string a `#` line is content; in the
     start state `# language: fr` is a language header -/
@@ -214,7 +215,7 @@ example : (MState.init Gen.dialects (lit "en")).map (fun μ =>
       (Spec.commentLineOkB Gen.dialects Gen.parserTable false μ 0 a 4 (lit "#n\n"),
        C16_texts (parseWith Gen.dialects Gen.parserTable false μ 0 a).1,
        C16_texts (parseWith Gen.dialects Gen.parserTable false μ 0 a').1)) =
-    some (false, [[], [[]], [lit "c1"]], [[], [[]], [lit "#n\nc1"]]) := by decide +kernel
+    some (false, [[], [[]], [lit "c1"]], [[], [[]], [lit "#n\nc1"]]) := by kdecide
 
 example : (MState.init Gen.dialects (lit "en")).map (fun μ =>
       let a := lit "Feature: f\n"
@@ -223,7 +224,7 @@ example : (MState.init Gen.dialects (lit "en")).map (fun μ =>
        Spec.commentLineOkB Gen.dialects Gen.parserTable false μ 0 a 0 (lit "# language fr\n"),
        C16_someLocs (parseWith Gen.dialects Gen.parserTable false μ 0 a).1,
        C16_someLocs (parseWith Gen.dialects Gen.parserTable false μ 0 a').1)) =
-    some (false, true, [], [⟨2, some 1⟩, ⟨3, none⟩]) := by decide +kernel
+    some (false, true, [], [⟨2, some 1⟩, ⟨3, none⟩]) := by kdecide
 
 /-- NOT COVERED (see the header): directly after a keyword line the check answers `false`.  There the
     conclusion holds when the next line is not blank (first pair: the scenario's description stays
@@ -236,14 +237,14 @@ def C16_scenarioDescr : Outcome → List Str
 
 example : (MState.init Gen.dialects (lit "en")).map (fun μ =>
       Spec.commentLineOkB Gen.dialects Gen.parserTable false μ 0 (lit "Feature: f\nScenario: s\nGiven x\n") 2 (lit "#n\n")) =
-    some false := by decide +kernel
+    some false := by kdecide
 
 example : (MState.init Gen.dialects (lit "en")).map (fun μ =>
       [C16_scenarioDescr (parseWith Gen.dialects Gen.parserTable false μ 0 (lit "Feature: f\nScenario: s\nGiven x\n")).1,
        C16_scenarioDescr (parseWith Gen.dialects Gen.parserTable false μ 0 (lit "Feature: f\nScenario: s\n#n\nGiven x\n")).1,
        C16_scenarioDescr (parseWith Gen.dialects Gen.parserTable false μ 0 (lit "Feature: f\nScenario: s\n\n d\nGiven x\n")).1,
        C16_scenarioDescr (parseWith Gen.dialects Gen.parserTable false μ 0 (lit "Feature: f\nScenario: s\n#n\n\n d\nGiven x\n")).1]) =
-    some [[[]], [[]], [lit " d"], [lit "\n d"]] := by decide +kernel
+    some [[[]], [[]], [lit " d"], [lit "\n d"]] := by kdecide
 
 /-! ## G2b (i): the closing delimiter of a doc string may be indented alone -/
 
@@ -349,7 +350,7 @@ example : (MState.init Gen.dialects (lit "en")).map (fun μ =>
       let a' := lit "Feature: f\nScenario: s\n  Given x\n  \"\"\" xml\n  c1\n      \"\"\"\n    When y\n"
       (C16_indentOk false μ 0 a' a, Spec.indentOk2B Gen.dialects Gen.parserTable false μ 0 a' a,
        Spec.indentOk2B Gen.dialects Gen.parserTable true μ 0 a' a)) = some (false, true, true) := by
-  decide +kernel
+  kdecide
 
 /-- … the doc string is the same (content, media type, position); the following step has moved -/
 example : (MState.init Gen.dialects (lit "en")).map (fun μ =>
@@ -360,7 +361,7 @@ example : (MState.init Gen.dialects (lit "en")).map (fun μ =>
        (C16_texts (parseWith Gen.dialects Gen.parserTable false μ 0 a').1,
         C16_someLocs (parseWith Gen.dialects Gen.parserTable false μ 0 a').1)]) =
     some [([[], [[]], [lit "c1"]], [⟨2, some 1⟩, ⟨3, some 3⟩, ⟨4, some 3⟩, ⟨7, some 3⟩]),
-          ([[], [[]], [lit "c1"]], [⟨2, some 1⟩, ⟨3, some 3⟩, ⟨4, some 3⟩, ⟨7, some 5⟩])] := by decide +kernel
+          ([[], [[]], [lit "c1"]], [⟨2, some 1⟩, ⟨3, some 3⟩, ⟨4, some 3⟩, ⟨7, some 5⟩])] := by kdecide
 
 /-- COUNTEREXAMPLE: the OPENING delimiter moved alone fails the new check too, and the content
     changes (the content line keeps two blanks of its indentation less) -/
@@ -370,6 +371,6 @@ example : (MState.init Gen.dialects (lit "en")).map (fun μ =>
       (Spec.indentOk2B Gen.dialects Gen.parserTable false μ 0 a a',
        C16_texts (parseWith Gen.dialects Gen.parserTable false μ 0 a').1,
        C16_texts (parseWith Gen.dialects Gen.parserTable false μ 0 a).1)) =
-    some (false, [[], [[]], [lit "  c1"]], [[], [[]], [lit "c1"]]) := by decide +kernel
+    some (false, [[], [[]], [lit "  c1"]], [[], [[]], [lit "c1"]]) := by kdecide
 
 end GV
